@@ -97,7 +97,7 @@ def atom_label(t, labeller):
             return "P[%s]" % val_label(t[2][0], labeller)
         m = re.search(r"([A-Za-z_0-9]+)$", t[1])
         return "%s(%s)" % (m.group(1) if m else nm, ",".join(val_label(x, labeller) for x in t[2]))
-    return S.vstr(t)
+    return labeller(t) or S.vstr(t)
 
 
 def val_label(v, labeller):
@@ -145,6 +145,11 @@ def truth_table(paths, labeller):
         if t[0] == "binop" and t[1] in ("Eq", "Ne") and t[2][0] == "app" and t[3][0] == "app" and is_fn_call(t[2]) and is_fn_call(t[3]):
             e = ("x", expr(t[2]), expr(t[3]))
             return e if t[1] == "Eq" else ("n", e)
+        if t[0] == "binop" and t[1] in ("Eq", "Ne") and (is_bool_term(t[2]) or is_bool_term(t[3])):
+            # `pred(ch) == flag` / `pred(ch) != flag`: a comparison of two booleans (the other operand is a boolean value:
+            # a constant or a captured flag, which becomes an atom of its own)
+            e = ("x", expr(t[2]), expr(t[3]))
+            return e if t[1] == "Eq" else ("n", e)
         if t[0] == "binop" and t[1] == "Ne":
             return ("n", expr(("binop", "Eq", t[2], t[3])))
         lab = atom_label(t, labeller)
@@ -154,6 +159,13 @@ def truth_table(paths, labeller):
 
     def is_fn_call(t):
         return re.search(r"ops::Fn<.*>>::call$", t[1]) is not None
+
+    def is_bool_term(t):
+        return t[0] in ("bool", "not") or (t[0] == "binop" and t[1] in ("Eq", "Ne", "Lt", "Le", "Gt", "Ge")) or (t[0] == "app" and is_pred_call(t))
+
+    def is_pred_call(t):
+        # a call of a character predicate on ch: a captured predicate, or a std / seshat `char -> bool` method
+        return is_fn_call(t) or (len(t[2]) == 1 and t[2][0] == ("sym", "ch") and re.search(r"(::|^)is_[a-z_]+$|char::methods|unicode::props", str(t[1])) is not None)
 
     def ev(e, env):
         if e[0] == "c":
@@ -486,7 +498,7 @@ def analyze(ctx, want):
         if clo[0] not in ("closure", "fn"):
             ob("C08.d", "perl:%s:negated=%s" % (kind, neg), False, "returns %s" % S.vstr(r)[:80], fn.loc())
             continue
-        atoms, table = truth_table(eval_closure(F, clo), lambda v: None)
+        atoms, table = truth_table(eval_closure(F, clo), (lambda v: "NEG" if S.vstr(v).endswith(".negated") else None) if neg is None else (lambda v: None))
         if atoms is None:
             ob("C08.d", "perl:%s:negated=%s" % (kind, neg), False, "truth table not computable: %s" % table, fn.loc())
             continue
@@ -500,6 +512,16 @@ def analyze(ctx, want):
             ob("C08.a", "perl:known-kind:%s" % kind, False, "no specification", fn.loc())
             continue
         exp2 = (lambda e, f=exp: not f(e)) if neg else exp
+        if neg is None and "NEG" in atoms:
+            # the conversion does not branch on the polarity: the predicate tests the captured flag itself, and must be right
+            # for both of its values
+            names = dict(names, neg="NEG")
+            exp2 = (lambda e, f=exp: f(e) != e["neg"])
+            ok, det = compare(atoms, table, exp2, names)
+            for n_ in (True, False):
+                seen.add((kind, n_))
+                ob("C08.d", "perl:%s:negated=%s" % (kind, n_), ok, "\\%s: %s" % ({"Digit": "d", "Space": "s", "Word": "w"}[kind].upper() if n_ else {"Digit": "d", "Space": "s", "Word": "w"}[kind], det), fn.loc())
+            continue
         ok, det = compare(atoms, table, exp2, names)
         seen.add((kind, neg))
         ob("C08.d", "perl:%s:negated=%s" % (kind, neg), ok, "\\%s: %s" % ({"Digit": "d", "Space": "s", "Word": "w"}[kind].upper() if neg else {"Digit": "d", "Space": "s", "Word": "w"}[kind], det), fn.loc())
